@@ -77,6 +77,8 @@ package executor
 //@   at! `validationRulesMu.RLock()` ghost rl = true
 //@   at! `defer validationRulesMu.RUnlock()` requires rl
 //@   at! `validator.Validate(schema, doc)` requires rl && arg0 == schema && arg1 == doc
+// always the full rule list: explicit rules would replace it (validation reduced to the rules handed in)
+//@   callsite Validate: requires rl && arg0 == schema && arg1 == doc && nargs == 2
 //@   callsite RemoveRule: requires false
 //@   callsite ReplaceRule: requires false
 //@   callsite AddRule: requires false
